@@ -117,6 +117,13 @@ Proof.
   destruct l as [|x l]; [destruct b; reflexivity|]. cbn [skipn plus]. apply IH.
 Qed.
 
+Lemma skipn_nth_cons {A} (l : list A) k d : k < length l -> skipn k l = nth k l d :: skipn (S k) l.
+Proof.
+  revert l. induction k as [|k IH]; intros l H.
+  - destruct l; [cbn in H; lia|reflexivity].
+  - destruct l as [|x l]; [cbn in H; lia|]. cbn [skipn nth]. apply IH. cbn in H. lia.
+Qed.
+
 Lemma sub_sub {A} (l : list A) a n b m : b + m <= n -> sub (sub l a n) b m = sub l (a + b) m.
 Proof.
   intros H. unfold sub. rewrite skipn_firstn_comm, firstn_firstn, Nat.min_l by lia.
